@@ -31,6 +31,11 @@ def cstr(s):
     return '"' + s + '"'
 
 
+def jnum(v):
+    """a float for the case description: NaN / infinities as strings (JSON has no literal for them)"""
+    return v if v == v and abs(v) != float("inf") else repr(v)
+
+
 def impl_str(v):
     """the implementation argument as the model's string ("" = None); non-strings get a name no implementation has"""
     return "" if v is None else (v if isinstance(v, str) and v != "" else f"<{v!r}>".replace('"', "'"))
@@ -94,11 +99,11 @@ def run(ck: Check):
             record("dense-forward", {"in_dim": n, "x_shape": lead + [width], "bad": "width"}, width == n, got)
         for mode in ("gumbel_soft", "gumbel_hard"):
             for par in ("raw", "walsh"):
-                for tau in (-1.0, 0.0, 1e-30 * 0 - 0.5, 0.7):
+                for tau in (-1.0, 0.0, 1e-30 * 0 - 0.5, 0.7, float("nan"), float("-inf")):
                     lg = LogicDense(n, 4, device="cpu", parametrization=par, forward_sampling=mode, temperature=tau)
                     lg.train()
                     got = outcome(lambda: lg(torch.rand(2, n)))
-                    record("dense-gumbel", {"param": par, "mode": mode, "tau": tau, "bad": "tau"}, tau > 0, got)
+                    record("dense-gumbel", {"param": par, "mode": mode, "tau": jnum(tau), "bad": "tau"}, tau > 0, got)
     # an unknown sampling mode (given to the constructor or assigned later) must not silently compute something in training mode
     for par in ("raw", "walsh"):
         for mode in ("Soft", "sample", None, "gumbel", "soft", "hard"):
@@ -114,10 +119,10 @@ def run(ck: Check):
                 got = outcome(lambda: lm(torch.rand(2, 4)))
                 record("dense-sampling", {"param": par, "mode": mode, "late": late, "bad": "mode"},
                        mode in ("soft", "hard", "gumbel_soft", "gumbel_hard"), got)
-    for tau in (-2.0, 0.0, 0.5):
+    for tau in (-2.0, 0.0, 0.5, float("nan")):
         for hard in (False, True):
             got = outcome(lambda: gumbel_sigmoid(torch.zeros(3), tau=tau, hard=hard))
-            record("gumbel_sigmoid", {"tau": tau, "hard": hard, "bad": "tau"}, tau > 0, got)
+            record("gumbel_sigmoid", {"tau": jnum(tau), "hard": hard, "bad": "tau"}, tau > 0, got)
     # ---------------- LogicConv2d / 3d constructors
     for _ in range(reps):
         for dims in (2, 3):
@@ -187,12 +192,12 @@ def run(ck: Check):
             if dims == 2:
                 for mode in ("gumbel_soft", "gumbel_hard"):
                     for par in ("raw", "walsh"):
-                        for tau in (-1.0, 0.0, 0.7):
+                        for tau in (-1.0, 0.0, 0.7, float("nan")):
                             lg = LogicConv2d(in_dim=tuple(n), device="cpu", channels=C, num_kernels=2, tree_depth=1, receptive_field_size=2,
                                              parametrization=par, forward_sampling=mode, temperature=tau)
                             lg.train()
                             got = outcome(lambda: lg(torch.rand(2, C, *n)))
-                            record("conv2d-gumbel", {"param": par, "mode": mode, "tau": tau, "bad": "tau"}, tau > 0, got)
+                            record("conv2d-gumbel", {"param": par, "mode": mode, "tau": jnum(tau), "bad": "tau"}, tau > 0, got)
     # ---------------- GroupSum
     for _ in range(reps):
         for k, nfeat in ((2, 6), (2, 7), (3, 10), (5, 5), (4, 2), (1, 9)):
